@@ -119,3 +119,14 @@ package keeper
 //@   ensures success.noop: !called((Keeper).refundPacketToken) ==> nftOwner == old(nftOwner) && err == nil
 //@   ensures refund.only_on_error: called((Keeper).refundPacketToken) ==> isErrorAck(ack)
 //@   ensures error.refunds: isErrorAck(ack) ==> ncalls((Keeper).refundPacketToken) == 1 && (forall c in calls((Keeper).refundPacketToken) :: c.data == data && c.err == err)
+//@
+//@ // C09 / C19: the Msg handler propagates every failure of the send (A-SDK then discards what was written before it)
+//@ func (Keeper).NftTransfer(goCtx, msg) (resp, err)
+//@   props C09 C19
+//@   modifies tibc, events, nftOwner
+//@   requires nowrap: packetkeeper.nextSendVal(tibc[nextSend(clientkeeper.selfName(tibc), msg.DestChain)]) <u MAXU64
+//@   ensures send.once:  ncalls((Keeper).SendNftTransfer) <= 1 && (forall c in calls((Keeper).SendNftTransfer) :: c.class == msg.Class && c.id == msg.Id &&
+//@                          str(c.sender) == bech32dec(msg.Sender) && c.receiver == msg.Receiver && c.destChain == msg.DestChain && c.relayChain == msg.RealayChain && c.destContract == msg.DestContract)
+//@   ensures propagate:  (forall c in calls((Keeper).SendNftTransfer) :: c.err != nil ==> err != nil)
+//@   ensures done:       err == nil ==> called((Keeper).SendNftTransfer)
+//@   ensures badsender.noeffect: !called((Keeper).SendNftTransfer) ==> err != nil && nftOwner == old(nftOwner) && tibc == old(tibc) && events == old(events)
